@@ -85,16 +85,22 @@ class Engine:
         s = self._get_solver()
         self.nqueries += 1
         t0 = time.time()
-        s.push()
-        s.add(cond)
         from .discharge import guarded_check
-        r = guarded_check(s, self.feas_timeout_ms)
-        if r == 'sat':
-            try:
-                self._model = s.model()
-            except z3.Z3Exception:
-                self._model = None
-        s.pop()
+        try:
+            s.push()
+            s.add(cond)
+            r = guarded_check(s, self.feas_timeout_ms)
+            if r == 'sat':
+                try:
+                    self._model = s.model()
+                except z3.Z3Exception:
+                    self._model = None
+            s.pop()
+        except z3.Z3Exception:
+            # a cancelled / broken incremental solver: rebuilt on the next query; this query counts as unknown (= feasible)
+            self._solver = None
+            self._model = None
+            r = 'unknown'
         self.solver_s += time.time() - t0
         if r == 'unknown':
             self.nunknown += 1
